@@ -1,6 +1,7 @@
 import PebblesVerif.Proofs.Point
 import PebblesVerif.Proofs.Eval
 import PebblesVerif.Proofs.Sanitize
+import PebblesVerif.Proofs.OneHop
 import PebblesVerif.Model.Exec
 /-!
 # C01 — federated execution equals a single server
@@ -117,6 +118,20 @@ theorem C01_eval_node_lookup (env : Spec.Env) (e : Spec.Entity) (sels : List Sel
     (hk : Spec.evalSels env (.ent e.type e.id e.fields) sels [] = some kvs) :
     Spec.evalSels env (.root "Query") (convertToNodeQuery e.type sels) [] = some [("node", .obj kvs)] :=
   Spec.eval_node_lookup env e sels kvs he hid hT hk
+
+/-- **One stitching hop**: for every object, every two lists of plain fields `own` / `foreign`
+    with pairwise distinct response keys and every data: merging the answer for `foreign` into the
+    answer for `own` with the executor's own merge function (`DepthExecutorManager.merge`'s per-key
+    rule, `ResultOps.mergeInto`) is the single-server answer for `own ++ foreign`. Together with
+    `C01_eval_schema_independent` (each owner evaluates its share as the merged server would) and
+    `C01_eval_node_lookup` (the share is reached through `node(id: $id)`), this is the semantic step
+    that every level of the plan repeats. -/
+theorem C01_one_hop (e : Spec.Env) (o : Spec.Obj) (own foreign : List Sel) (a b : List (String × J))
+    (hp1 : Spec.plainFields own = true) (hp2 : Spec.plainFields foreign = true)
+    (hnd : (Spec.respKeys (own ++ foreign)).Nodup)
+    (ha : Spec.evalSels e o own [] = some a) (hb : Spec.evalSels e o foreign [] = some b) :
+    Spec.evalSels e o (own ++ foreign) [] = some (ResultOps.mergeInto a b) :=
+  Spec.one_hop e o own foreign a b hp1 hp2 hnd ha hb
 
 /-! ## Planner front end -/
 
